@@ -167,3 +167,65 @@ fn unit_arms_occupy_no_payload() {
     assert!(size_of::<DiplomatResult<(), u32>>() == 8);
     assert!(size_of::<DiplomatOption<u64>>() == 16);
 }
+
+// ---- the runtime's own readers of `is_ok` -------------------------------------------------------------
+// A record whose is_ok is true holds (only) the ok arm, whatever the two payload types are: Drop, Clone and the
+// conversions must decode it that way. The owning arm is a drop-counting token, the other arm plain data.
+mod is_ok_selects_the_arm {
+    use crate::result::*;
+    use crate::tok::*;
+
+    #[derive(Clone, Copy, PartialEq)]
+    #[repr(C)]
+    pub struct Plain(pub u64);
+
+    #[kani::proof]
+    #[kani::unwind(10)]
+    fn plain_ok_owning_err() {
+        let ok: bool = kani::any();
+        let d: DiplomatResult<Plain, TokE> = if ok { Ok(Plain(0xDEAD_BEEF_0BAD_F00D)) } else { Err(TokE::new()) }.into();
+        assert!(d.is_ok == ok);
+        let c = d.clone();
+        assert!(c.is_ok == ok);
+        match c.as_ref() {
+            Ok(p) => assert!(ok && p.0 == 0xDEAD_BEEF_0BAD_F00D),
+            Err(_) => assert!(!ok),
+        }
+        drop(c);
+        drop(d);
+        assert_each_dropped_once();
+        kani::cover!(ok);
+        kani::cover!(!ok);
+    }
+
+    #[kani::proof]
+    #[kani::unwind(10)]
+    fn owning_ok_unit_err() {
+        let ok: bool = kani::any();
+        let d: DiplomatResult<Tok, ()> = if ok { Ok(Tok::new()) } else { Err(()) }.into();
+        assert!(d.is_ok == ok);
+        let c = d.clone();
+        assert!(c.is_ok == ok);
+        drop(d);
+        let r: Result<Tok, ()> = c.into();
+        assert!(r.is_ok() == ok);
+        drop(r);
+        assert_each_dropped_once();
+        kani::cover!(ok);
+        kani::cover!(!ok);
+    }
+
+    #[kani::proof]
+    #[kani::unwind(10)]
+    fn unit_ok_owning_err() {
+        let ok: bool = kani::any();
+        let d: DiplomatResult<(), Tok> = if ok { Ok(()) } else { Err(Tok::new()) }.into();
+        assert!(d.is_ok == ok);
+        let c = d.clone();
+        drop(d);
+        drop(c);
+        assert_each_dropped_once();
+        kani::cover!(ok);
+        kani::cover!(!ok);
+    }
+}
